@@ -508,6 +508,27 @@ impl<'a> Driver<'a> {
         self.w.apply(idx, &op);
     }
 
+    /// A session in which at least one endpoint was built but cannot be followed by the model
+    /// (irregular key lengths the builder let through): its calls are still made - writes,
+    /// reads of whatever the peer produced, a conversion attempt - under the panic monitor.
+    fn blind_exchange(&mut self, a: usize, b: usize) {
+        let live = |w: &World, i: usize| matches!(w.nodes[i].st, St::Hs(_));
+        if !(live(self.w, a) && live(self.w, b)) || (self.w.nodes[a].shadow.is_some() && self.w.nodes[b].shadow.is_some()) {
+            return;
+        }
+        for round in 0..4u32 {
+            let (wr, rd) = if round % 2 == 0 { (a, b) } else { (b, a) };
+            let plen = *self.rng.pick(&[0u32, 5, 64]);
+            step!(self, Op::Write { node: wr as u8, plen, pseed: round, buf: Buf::Ample, nonce: NonceSel::Auto });
+            step!(self, Op::Read { node: rd as u8, src: Src::Next, mutation: Mutation::None, out: Buf::Ample, nonce: NonceSel::Auto });
+            if self.rng.chance(1, 3) {
+                step!(self, Op::Read { node: rd as u8, src: Src::Garbage { len: self.rng.below(120) as u32, seed: round }, mutation: Mutation::None, out: Buf::Ample, nonce: NonceSel::Auto });
+            }
+        }
+        step!(self, Op::Query { node: a as u8 });
+        step!(self, Op::Query { node: b as u8 });
+    }
+
     fn hs_state(&self, i: usize) -> Option<(usize, bool, bool)> {
         let n = &self.w.nodes[i];
         if !matches!(n.st, St::Hs(_)) {
@@ -600,7 +621,10 @@ impl<'a> Driver<'a> {
             }
             let (sa, sb) = match (self.hs_state(a), self.hs_state(b)) {
                 (Some(x), Some(y)) => (x, y),
-                _ => return false,
+                _ => {
+                    self.blind_exchange(a, b);
+                    return false;
+                },
             };
             if sa.2 && sb.2 {
                 return true;
